@@ -747,13 +747,26 @@ def spf_network_composer(ctx, report, rule='C18.R7'):
         def compose_numeric(self, v):
             self.text += str(v)
     params = [a.arg for a in f.node.args.args if a.arg != 'cls']
+    from ..miniexec import class_call_hook
+    import ipaddress
+
+    def names(name):
+        # the address family constants of the standard library are what they are
+        table = {'str': str, 'ipaddress.IPV4LENGTH': ipaddress.IPV4LENGTH, 'ipaddress.IPV6LENGTH': ipaddress.IPV6LENGTH}
+        if name in table:
+            return table[name]
+        raise Unsupported('free name ' + name)
+    hook = class_call_hook(c, None, ctx.model)       # helper methods and class level constants through the class chain
     try:
         for addr, plen, mx in (('192.0.2.0', 24, 32), ('192.0.2.1', 32, 32), ('10.0.0.0', 8, 32), ('2001:db8::', 32, 128), ('2001:db8::1', 128, 128),
-                               ('2001:db8::', 64, 128), ('::', 0, 128), ('0.0.0.0', 0, 32)):
+                               ('2001:db8::', 64, 128), ('::', 0, 128), ('0.0.0.0', 0, 32), ('2001:db8::', 31, 128), ('2001:db8::', 33, 128),
+                               ('10.0.0.0', 31, 32), ('2001:db8::', 127, 128)):
             report.count(rule)
             comp = Composer()
             net = Obj(network_address=addr, prefixlen=plen, max_prefixlen=mx)
-            Evaluator(dict(zip(params, [comp, net])), None, lambda name: str if name == 'str' else (_ for _ in ()).throw(Unsupported('free name ' + name))).function(f.node)
+            env = dict(zip(params, [comp, net]))
+            env['cls'] = 'cls'
+            Evaluator(env, hook, hook.name_hook_for(f.module, names)).function(f.node)
             want = ':' + addr + ('' if plen == mx else '/%d' % plen)
             if comp.text != want:
                 report.add(rule, f.construct + '@prefix[%s]' % ('ip6' if ':' in addr else 'ip4'),
